@@ -53,7 +53,7 @@ package main
 //@     iterates [C02] at_most_one_copy: outCount[sess] <= prev(outCount[sess]) + 1 && (forall s int :: s != ref(sess) ==> outCount[s] == prev(outCount[s]))
 //@     iterates [C02] data_to_readers_only: msg.Data != nil && msg.Pres == nil && msg.Info == nil && sess.proto != MULTIPLEX && pssd.uid != types.ZeroUid && outCount[sess] != prev(outCount[sess]) ==> sess.sid != msg.SkipSid && (pssd.isChanSub || ((pssd.uid in t.perUser) && (effMode(t, pssd.uid) & types.ModeRead) != 0))
 //@     iterates [C02] data_to_every_reader: msg.Data != nil && msg.Pres == nil && msg.Info == nil && sess.proto != MULTIPLEX && pssd.uid != types.ZeroUid && sess.sid != msg.SkipSid && (pssd.isChanSub || ((pssd.uid in t.perUser) && (effMode(t, pssd.uid) & types.ModeRead) != 0)) ==> outCount[sess] == prev(outCount[sess]) + 1
-//@     iterates [C09] typing_never_back_to_the_typist: msg.Info != nil && msg.Pres == nil && msg.Data == nil && msg.Info.What == "kp" && sess.proto != MULTIPLEX && msg.Info.From == userIdText(pssd.uid) ==> outCount[sess] == prev(outCount[sess])
+//@     iterates [C09] typing_never_back_to_the_typist: msg.Info != nil && msg.Pres == nil && msg.Data == nil && (msg.Info.What == "kp" || msg.Info.What == "kpa" || msg.Info.What == "kpv") && sess.proto != MULTIPLEX && msg.Info.From == userIdText(pssd.uid) ==> outCount[sess] == prev(outCount[sess])
 //@     iterates [C09,C02] receipts_not_to_channel_readers: msg.Info != nil && msg.Pres == nil && msg.Data == nil && msg.Info.Src == "" && sess.proto != MULTIPLEX && pssd.uid != types.ZeroUid && outCount[sess] != prev(outCount[sess]) ==> !pssd.isChanSub && (pssd.uid in t.perUser) && (effMode(t, pssd.uid) & types.ModeRead) != 0
 //@     iterates [C02] original_untouched: msg.Data != nil ==> msg.Data == prev(msg.Data) && msg.Data.Topic == prev(msg.Data.Topic) && msg.Data.From == prev(msg.Data.From) && msg.Data.SeqId == prev(msg.Data.SeqId) && msg.Data.Content == prev(msg.Data.Content)
 //@   assert at call Session.queueOut [C02] copy_is_faithful: msg.Data != nil ==> $1 != nil && $1 != msg && $1.Data != nil && $1.Data != msg.Data && $1.Data.SeqId == msg.Data.SeqId && $1.Data.Content == msg.Data.Content && $1.Data.Head == msg.Data.Head && $1.Data.Timestamp == msg.Data.Timestamp && (!pssd.isChanSub ==> $1.Data.From == msg.Data.From) && (pssd.isChanSub ==> $1.Data.From == "")
@@ -1129,6 +1129,7 @@ package main
 //@     iterates [C09,C10] receipts_need_P_and_R: sent(globals.hub.routeSrv) > prev(sent(globals.hub.routeSrv)) ==> !pud.deleted && ((pud.modeGiven & pud.modeWant) & types.ModePres) != 0 && ((pud.modeGiven & pud.modeWant) & types.ModeRead) != 0
 // (C09: "relayed notifications reach only ... users with read permission - never channel readers": a channel reader is in
 // the topic's table with J, R and P)
+//@     iterates [C09] typing_never_to_the_typists_own_me: (what == "kp" || what == "kpa" || what == "kpv") && sent(globals.hub.routeSrv) > prev(sent(globals.hub.routeSrv)) ==> uid != from
 //@     iterates [C09] receipts_never_to_channel_readers: sent(globals.hub.routeSrv) > prev(sent(globals.hub.routeSrv)) ==> !pud.isChan
 //@     iterates [C10] receipts_never_to_banned: sent(globals.hub.routeSrv) > prev(sent(globals.hub.routeSrv)) ==> ((pud.modeGiven & pud.modeWant) & types.ModeJoin) != 0
 //@     iterates [C10] one_per_subscriber: sent(globals.hub.routeSrv) <= prev(sent(globals.hub.routeSrv)) + 1
